@@ -62,6 +62,9 @@ type vc24Filter struct {
 	Tags  [][]string `json:"tags"`
 	Paths []string   `json:"paths"`
 	Lim   int        `json:"lim"`
+	// Spell, when set, holds other spellings of Paths (same length, each cleans to Paths[i]); they are
+	// given to the "latest" queries only (findLatest makes the paths absolute and clean)
+	Spell []string `json:"spell,omitempty"`
 }
 
 var vc24Base = time.Date(2024, 3, 1, 0, 0, 0, 0, time.UTC)
@@ -94,6 +97,29 @@ func vc24Build(sns []vc24Snap, r *rand.Rand) (*vc24Store, map[restic.ID]int) {
 	return st, ids
 }
 
+// realLatest is the filter handed to the "latest" queries: other spellings of the same paths.
+func (f vc24Filter) realLatest() *SnapshotFilter {
+	sf := f.real()
+	if len(f.Spell) > 0 {
+		sf.Paths = append([]string{}, f.Spell...)
+	}
+	return sf
+}
+
+func vc24Spell(p string, k int) string {
+	switch k % 5 {
+	case 0:
+		return p + "/"
+	case 1:
+		return p + "/."
+	case 2:
+		return "/" + p
+	case 3:
+		return "/zz/.." + p
+	}
+	return p
+}
+
 func (f vc24Filter) real() *SnapshotFilter {
 	sf := &SnapshotFilter{}
 	if len(f.Hosts) > 0 {
@@ -122,7 +148,7 @@ func vc24ErrClass(err error) string {
 }
 
 func TestVerif_C24(t *testing.T) {
-	res := kit.NewResult("one case = (snapshot set, filter) run through the real SnapshotFilter.FindAll (no ids), FindLatest(\"latest\") and FindAll([\"latest\"]), or (snapshot set, group-by option) run through the real GroupSnapshots; snapshot sets of 0..5 snapshots over hosts {h1,h2} x path lists {[/a],[/b],[/a,/b],[/b,/a]} x tag lists {[],[x],[y],[x,y],[y,x]} x times {2,4,6} (ties); filters = hosts {-,h1,h2,h1+h2,h3} x tag lists {-,x,y,\"x,y\",x|y,'',x|'',z} x paths {-,/a,/b,/a+/b,/b+/a,/c} x time limit {none,1..7}; distinct by (set, filter/grouping); non-trivial when the filter selects some but not all snapshots / grouping yields >= 2 groups")
+	res := kit.NewResult("one case = (snapshot set, filter) run through the real SnapshotFilter.FindAll (no ids), FindLatest(\"latest\") and FindAll([\"latest\"]), or (snapshot set, group-by option) run through the real GroupSnapshots; snapshot sets of 0..5 snapshots over hosts {h1,h2} x path lists {[/a],[/b],[/a,/b],[/b,/a]} x tag lists {[],[x],[y],[x,y],[y,x]} x times {2,4,6} (ties); filters = hosts {-,h1,h2,h1+h2,h3} x tag lists {-,x,y,\"x,y\",x|y,'',x|'',z} x paths {-,/a,/b,/a+/b,/b+/a,/c} x time limit {none,1..7}, plus filters that repeat a host / a tag inside a list / a whole tag list / a path (2..4 times) and, for the 'latest' queries, other spellings of the filter paths (/a/, /a/., //a, /zz/../a; also one path named in two spellings); distinct by (set, filter/grouping); non-trivial when the filter selects some but not all snapshots / grouping yields >= 2 groups")
 	defer res.Save("")
 	recs := kit.NewNDJSON("recs.ndjson")
 	defer recs.Close()
@@ -154,6 +180,47 @@ func TestVerif_C24(t *testing.T) {
 			}
 		}
 	}
+	// filters that repeat a host, a tag (inside one list), a whole tag list or a path: the options are
+	// sets of alternatives / requirements, repeating one changes nothing
+	dHosts := [][]string{{"h1", "h1"}, {"h2", "h1", "h2"}, {"h3", "h3"}}
+	dTags := [][][]string{{{"x", "x"}}, {{"x"}, {"x"}}, {{"x", "y", "x"}}, {{"y", "y"}, {"z"}}, {{""}, {""}}}
+	dPaths := [][]string{{"/a", "/a"}, {"/b", "/b"}, {"/a", "/b", "/a"}, {"/b", "/a", "/b", "/a"}, {"/a", "/a", "/a"}, {"/c", "/c"}}
+	var dupFilters []vc24Filter
+	{
+		aH := append(append([][]string{}, fHosts...), dHosts...)
+		aT := append(append([][][]string{}, fTags...), dTags...)
+		aP := append(append([][]string{}, fPaths...), dPaths...)
+		for hi, h := range aH {
+			for ti, tg := range aT {
+				for pi, p := range aP {
+					if hi >= len(fHosts) || ti >= len(fTags) || pi >= len(fPaths) {
+						dupFilters = append(dupFilters, vc24Filter{Hosts: h, Tags: tg, Paths: p})
+					}
+				}
+			}
+		}
+	}
+	res.Count("filters_with_repeats", len(dupFilters))
+	// respell gives the "latest" queries other spellings of the filter's paths, sometimes with one path
+	// named twice in two spellings (the record keeps the clean paths)
+	respell := func(f vc24Filter, r *rand.Rand) vc24Filter {
+		if len(f.Paths) == 0 {
+			return f
+		}
+		f.Paths = append([]string{}, f.Paths...)
+		if r.Intn(2) == 0 {
+			f.Paths = append(f.Paths, f.Paths[r.Intn(len(f.Paths))])
+		}
+		f.Spell = nil
+		for i, p := range f.Paths {
+			k := r.Intn(5)
+			if i == len(f.Paths)-1 && k == 4 {
+				k = r.Intn(4)
+			}
+			f.Spell = append(f.Spell, vc24Spell(p, k))
+		}
+		return f
+	}
 	res.Count("snapshot_variants", len(variants))
 	res.Count("filters_without_limit", len(filters))
 
@@ -169,7 +236,12 @@ func TestVerif_C24(t *testing.T) {
 		for _, l := range f.Tags {
 			tg = append(tg, vc24Strs(l))
 		}
-		return map[string]any{"hosts": vc24Strs(f.Hosts), "tags": tg, "paths": vc24Strs(f.Paths), "lim": f.Lim}
+		m := map[string]any{"hosts": vc24Strs(f.Hosts), "tags": tg, "paths": vc24Strs(f.Paths), "lim": f.Lim}
+		if len(f.Spell) > 0 {
+			m["spell"] = f.Spell
+			res.Count("filters_with_respelled_paths", 1)
+		}
+		return m
 	}
 
 	runFilter := func(sns []vc24Snap, f vc24Filter) {
@@ -189,14 +261,14 @@ func TestVerif_C24(t *testing.T) {
 		}
 		// FindLatest("latest")
 		lat := 0
-		sn, _, err := f.real().FindLatest(ctx, st, st, "latest")
+		sn, _, err := f.realLatest().FindLatest(ctx, st, st, "latest")
 		laterr := vc24ErrClass(err)
 		if err == nil && sn != nil {
 			lat = ids[*sn.ID()]
 		}
 		// FindAll(["latest"])
 		lat2, lat2err, calls := 0, "none", 0
-		err = f.real().FindAll(ctx, st, st, []string{"latest"}, func(_ string, sn *Snapshot, err error) error {
+		err = f.realLatest().FindAll(ctx, st, st, []string{"latest"}, func(_ string, sn *Snapshot, err error) error {
 			calls++
 			if err != nil {
 				lat2err = vc24ErrClass(err)
@@ -257,6 +329,12 @@ func TestVerif_C24(t *testing.T) {
 	}
 	randFilter := func() vc24Filter {
 		f := filters[r.Intn(len(filters))]
+		switch r.Intn(5) {
+		case 0, 1:
+			f = dupFilters[r.Intn(len(dupFilters))]
+		case 2:
+			f = respell(f, r)
+		}
 		if r.Intn(3) > 0 {
 			f.Lim = 1 + r.Intn(7)
 		}
@@ -275,6 +353,22 @@ func TestVerif_C24(t *testing.T) {
 			n++
 			if (n+int(kit.Seed()))%strideA != 0 {
 				continue
+			}
+			runFilter(number([]vc24Snap{v}), f)
+		}
+	}
+	// ---- A2: every single snapshot variant x every filter with repeats, sampled; half of them with
+	// respelled paths for "latest"
+	strideA2 := kit.Pick(24, 2)
+	n = 0
+	for _, v := range variants {
+		for _, f := range dupFilters {
+			n++
+			if (n+int(kit.Seed()))%strideA2 != 0 {
+				continue
+			}
+			if r.Intn(2) == 0 {
+				f = respell(f, r)
 			}
 			runFilter(number([]vc24Snap{v}), f)
 		}
